@@ -93,6 +93,96 @@ theorem C06_bits_grad (t : Tie) (c : BitsCfg) (useSte : Bool) (qf x : ℚ) :
     (qbitsD t c useSte qf (D.var x)).tan = if useSte then 1 else 1 - qf := by
   unfold qbitsD; rw [C06_steMix_tan]; simp [D.var]
 
+/-! ## quantized_bits with a data-dependent scale (alpha = 'auto' / 'auto_po2' / post-training scale)
+
+  The branch normalises `x = x / m_i` for the scale search and restores `x = m_i * x` before the
+  straight-through return.  `scaleOf` is the scale search as a function of the normalised dual
+  number — ANY function, with any tangent (K.max is differentiable): the statements hold for all. -/
+
+private theorem sgn_scale {a : ℚ} (ha : 0 < a) (x : ℚ) : D.sgn (a * x) = D.sgn x := by
+  unfold D.sgn
+  have h1 : a * x < 0 ↔ x < 0 := by
+    constructor
+    · intro h; by_contra hx; push Not at hx; nlinarith [mul_nonneg ha.le hx]
+    · intro h; nlinarith
+  have h2 : a * x = 0 ↔ x = 0 := by simp [ha.ne']
+  simp only [h1, h2]
+
+private theorem abs_scale {a : ℚ} (ha : 0 < a) (x : ℚ) : D.absv (a * x) = a * D.absv x := by
+  unfold D.absv
+  have h1 : a * x < 0 ↔ x < 0 := by
+    constructor
+    · intro h; by_contra hx; push Not at hx; nlinarith [mul_nonneg ha.le hx]
+    · intro h; nlinarith
+  simp only [h1]; split <;> ring
+
+/-- gradient of the auto-scaled `quantized_bits`: EXACTLY 1 with the straight-through estimator and
+    `1 − qnoise_factor` without — for every `integer` (the `x / m_i … m_i * x` bookkeeping cancels),
+    every `bits`, `keep_negative`, input and every scale search -/
+theorem C06_bits_auto_grad (c : AutoCfg) (useSte : Bool) (qf : ℚ) (scaleOf : D → D) (x : ℚ) :
+    (qbitsAutoD c useSte qf scaleOf (D.var x)).tan = if useSte then 1 else 1 - qf := by
+  unfold qbitsAutoD
+  simp only []
+  rw [C06_steMix_tan]
+  have h := pow2_ne_zero c.integer
+  simp only [D.smul, D.var]
+  have : pow2 c.integer * (1 / pow2 c.integer * 1) = 1 := by field_simp
+  rw [this, mul_one]
+
+/-- `C06_no_leak` instantiated for this branch: two different scale searches give the same gradient -/
+theorem C06_bits_auto_no_leak (c : AutoCfg) (useSte : Bool) (qf : ℚ) (f g : D → D) (x : ℚ) :
+    (qbitsAutoD c useSte qf f (D.var x)).tan = (qbitsAutoD c useSte qf g (D.var x)).tan := by
+  rw [C06_bits_auto_grad, C06_bits_auto_grad]
+
+/-- forward value of the branch: `x + qf·(xq − x)` with `x` the ORIGINAL input (restored) and `xq` the
+    closed form `qbitsAutoVal` for the scale found on the normalised tensor — for every
+    `qnoise_factor`, not only 1 -/
+theorem C06_bits_auto_val (c : AutoCfg) (useSte : Bool) (qf : ℚ) (scaleOf : D → D) (x : ℚ) :
+    (qbitsAutoD c useSte qf scaleOf (D.var x)).val
+      = x + qf * (qbitsAutoVal c (scaleOf (D.smul (1 / pow2 c.integer) (D.var x))).val x - x) := by
+  unfold qbitsAutoD
+  simp only []
+  rw [C06_steMix_val]
+  have hmi := pow2_pos c.integer
+  have hmi' : (0 : ℚ) < 1 / pow2 c.integer := by positivity
+  have hm : (twoPow c.ub : ℚ) ≠ 0 := by rw [twoPow_eq_tp]; exact_mod_cast (tp_pos _).ne'
+  generalize hs : (scaleOf (D.smul (1 / pow2 c.integer) (D.var x))) = sc
+  have hxr : (D.smul (pow2 c.integer) (D.smul (1 / pow2 c.integer) (D.var x))).val = x := by
+    simp only [D.smul, D.var]; field_simp
+  have hxq : (qbitsAutoXq c sc (D.smul (1 / pow2 c.integer) (D.var x))).val
+      = qbitsAutoVal c sc.val x := by
+    unfold qbitsAutoXq qbitsAutoVal
+    simp only [D.mul, D.smul]
+    simp only [D.var, D.sign, D.floor, D.add, D.div, D.abs, D.const, sgn_scale hmi', abs_scale hmi']
+    have e : 1 / pow2 c.integer * D.absv x / sc.val + 1 / 2
+        = D.absv x / (sc.val * pow2 c.integer) + 1 / 2 := by
+      rw [one_div_mul_eq_div, div_div, mul_comm]
+    rw [e]
+    split
+    · simp only []; field_simp
+    · simp only []; field_simp
+  rw [hxr, hxq]
+
+/-- what the restore is for: WITHOUT `x = m_i * x` the gradient is `2^-integer` times the
+    surrogate's (and the forward value is wrong for `qnoise_factor < 1`) -/
+theorem C06_bits_auto_unrestored_tan (c : AutoCfg) (useSte : Bool) (qf : ℚ) (scaleOf : D → D) (x : ℚ) :
+    (qbitsAutoUnrestoredD c useSte qf scaleOf (D.var x)).tan
+      = (if useSte then 1 else 1 - qf) / pow2 c.integer := by
+  unfold qbitsAutoUnrestoredD
+  simp only []
+  rw [C06_steMix_tan]
+  simp only [D.smul, D.var]; ring
+
+/-- … hence it is the identity surrogate's gradient only for `integer = 0` -/
+theorem C06_bits_auto_unrestored_ne (c : AutoCfg) (h : c.integer ≠ 0) (qf : ℚ) (scaleOf : D → D) (x : ℚ) :
+    (qbitsAutoUnrestoredD c true qf scaleOf (D.var x)).tan ≠ 1 := by
+  rw [C06_bits_auto_unrestored_tan]
+  simp only [if_true]
+  intro h1
+  have hp := pow2_ne_zero c.integer
+  have : pow2 c.integer = pow2 0 := by rw [pow2_zero]; field_simp at h1; linarith
+  exact h (pow2_injective this)
+
 /-! ## quantized_relu: gradient of the (leaky, bounded) ReLU -/
 
 /-- derivative of the surrogate `x_u` at `x` -/
@@ -144,6 +234,63 @@ theorem C06_linear_val (t : Tie) (c : LinCfg) (h : c.signFn = false) (qf x : ℚ
   have e : 1 / c.qs * x = x / c.qs := by ring
   simp only [e]
   ring_nf
+
+/-! ### quantized_linear with a data-dependent (stopped) scale -/
+
+/-- clip bounds of `quantized_linear` in scaled units (`get_clip_bounds`) -/
+def linLo (c : LinCfg) : ℚ := if c.signFn then -1/2 else (c.lo : ℚ)
+def linHi (c : LinCfg) : ℚ := if c.signFn then 1/2 else (c.hi : ℚ)
+
+/-- gradient for ANY quantization scale `qs` (value and tangent arbitrary — it enters under
+    `stop_gradient`): 1 inside the clip range, `1 − qnoise_factor` outside; 1-bit sign function
+    included -/
+theorem C06_linear_auto_grad (t : Tie) (c : LinCfg) (qs : D) (hq : qs.val ≠ 0) (qf x : ℚ) :
+    (qlinearSD t c qs qf (D.var x)).tan
+      = if linLo c ≤ x / qs.val ∧ x / qs.val ≤ linHi c then 1 else 1 - qf := by
+  unfold qlinearSD linLo linHi
+  cases hsf : c.signFn <;>
+  · simp only [Bool.false_eq_true, if_false, if_true, D.smul, D.var, D.clip, D.add, D.const,
+      D.roundThrough, D.sg, D.neg, D.round, D.sub, D.div, D.mul, mul_zero, zero_add, add_zero]
+    split
+    · field_simp; ring
+    · ring
+
+theorem C06_linear_auto_no_leak (t : Tie) (c : LinCfg) (v d d' : ℚ) (qf x : ℚ) :
+    (qlinearSD t c ⟨v, d⟩ qf (D.var x)).tan = (qlinearSD t c ⟨v, d'⟩ qf (D.var x)).tan := by
+  unfold qlinearSD
+  simp only [D.sg]
+
+/-- forward value for any scale: `x + qf·(round(clip(x/qs))·qs − x)` -/
+theorem C06_linear_auto_val (t : Tie) (c : LinCfg) (h : c.signFn = false) (qs : D) (qf x : ℚ) :
+    (qlinearSD t c qs qf (D.var x)).val
+      = x + qf * (qlinear t { c with alpha := some (qs.val / pow2 (c.integer - c.ub)) } x - x) := by
+  have hub : LinCfg.ub { c with alpha := some (qs.val / pow2 (c.integer - c.ub)) } = c.ub := rfl
+  have hqs : LinCfg.qs { c with alpha := some (qs.val / pow2 (c.integer - c.ub)) } = qs.val := by
+    unfold LinCfg.qs
+    rw [hub]
+    have := pow2_ne_zero (c.integer - c.ub)
+    simp only [Option.getD_some]
+    field_simp
+  have hsf : LinCfg.signFn { c with alpha := some (qs.val / pow2 (c.integer - c.ub)) } = false := h
+  have hlo : LinCfg.lo { c with alpha := some (qs.val / pow2 (c.integer - c.ub)) } = c.lo := rfl
+  have hhi : LinCfg.hi { c with alpha := some (qs.val / pow2 (c.integer - c.ub)) } = c.hi := rfl
+  unfold qlinearSD qlinear
+  rw [hsf, hqs, hlo, hhi]
+  simp only [h, Bool.false_eq_true, if_false, D.smul, D.var, D.clip, D.add, D.const, D.roundThrough,
+    D.sg, D.neg, D.round, D.sub, D.div, D.mul]
+  ring_nf
+
+/-- the constant-scale transcription `qlinearD` is the instance `qs = c.qs` -/
+theorem C06_linear_const_scale (t : Tie) (c : LinCfg) (hq : c.qs ≠ 0) (d qf x : ℚ) :
+    qlinearSD t c ⟨c.qs, d⟩ qf (D.var x) = qlinearD t c qf (D.var x) := by
+  unfold qlinearSD qlinearD
+  have e : 1 / c.qs * x = x / c.qs := by ring
+  have e2 : c.qs / (c.qs * c.qs) = 1 / c.qs := by field_simp
+  cases hsf : c.signFn <;>
+  · simp only [Bool.false_eq_true, if_false, if_true, D.smul, D.var, D.clip, D.add, D.const,
+      D.roundThrough, D.sg, D.neg, D.round, D.sub, D.div, D.mul, e, mul_zero, zero_add, add_zero,
+      sub_zero, one_mul, mul_one, e2]
+    congr 1 <;> ring
 
 /-! ## quantized_tanh / quantized_sigmoid: surrogate derivative times the clip mask -/
 
@@ -245,5 +392,15 @@ example : (qbitsD .even { bits := 4, integer := 0, symmetric := false, keepNeg :
     true 1 (D.var (3 / 10))) = ⟨1 / 4, 1⟩ := by decide +kernel
 example : (qlinearD .even { bits := 4, integer := 0, symmetric := true, keepNeg := true, alpha := none }
     1 (D.var 5)) = ⟨7 / 8, 0⟩ := by decide +kernel
+-- auto-scaled quantized_bits(4, 2, 1): scale·m_i = 1/2, x = 5/4 -> code 3, xq = 3/2; at qnoise_factor 1/4
+-- the value is 5/4 + (3/2 - 5/4)/4 and the tangent is 1 although the scale search has tangent 7
+example : (qbitsAutoD { bits := 4, integer := 2, keepNeg := true } true (1 / 4) (fun _ => ⟨1 / 8, 7⟩)
+    (D.var (5 / 4))) = ⟨21 / 16, 1⟩ := by decide +kernel
+example : (qbitsAutoUnrestoredD { bits := 4, integer := 2, keepNeg := true } true (1 / 4)
+    (fun _ => ⟨1 / 8, 7⟩) (D.var (5 / 4))).tan = 1 / 4 := by decide +kernel
+-- quantized_linear(4, 0, 0, alpha='auto') whose scale came out as 1/4: x = 31/16 is in the half-step band
+-- above clip_max = 7 (x/qs = 7.75): value 7/4, gradient 0 at qnoise_factor 1
+example : (qlinearSD .even { bits := 4, integer := 0, symmetric := false, keepNeg := true, alpha := none }
+    ⟨1 / 4, 9⟩ 1 (D.var (31 / 16))) = ⟨7 / 4, 0⟩ := by decide +kernel
 
 end QKV.Props.C06
